@@ -33,7 +33,7 @@ except Exception:  # stand-alone use
             h.update(open(p, "rb").read())
         return h.hexdigest()[:16]
 
-FILES = ["src/fs/pascal/pack.rs", "src/fs/dos3x/types.rs", "src/fs/dos3x/mod.rs", "src/fs/prodos/mod.rs"]
+FILES = ["src/fs/pascal/pack.rs", "src/fs/dos3x/types.rs", "src/fs/dos3x/mod.rs", "src/fs/prodos/mod.rs", "src/fs/fat/mod.rs", "src/fs/cpm/mod.rs"]
 
 
 def ws(s):
@@ -86,12 +86,12 @@ def cap_branch(body, cond, what):
     raise TranslatorError("c12fs: the nesting cap branch of %s neither plainly returns Err nor Ok" % what)
 
 
-def visit_budget(body, what, rec_name):
-    """`*visits += 1; if *visits > self.total_blocks { … return Err(…) }` and `visits` handed to the recursive call"""
+def visit_budget(body, what, rec_name, limit=r"self\.total_blocks"):
+    """`*visits += 1; if *visits > <limit> { … return Err(…) }` and `visits` handed to the recursive call"""
     t = ws(body)
     if "visits" not in t:
         return False
-    m = re.search(r"\*visits\s*\+=\s*1\s*;\s*if\s+\*visits\s*>\s*self\.total_blocks\s*\{", body)
+    m = re.search(r"\*visits\s*\+=\s*1\s*;\s*if\s+\*visits\s*>\s*" + limit + r"\s*\{", body)
     if not m:
         raise TranslatorError("c12fs: %s mentions `visits` but not in the modelled form" % what)
     blk = block_after(body, m.end() - 1, what)
@@ -165,6 +165,42 @@ def generate(repo):
     tr = ws(fn_body(pm, r"fn tree\s*\(\s*&mut self", "prodos tree"))
     if ws("self.tree_node(dir_block,include_meta,0") not in tr:
         raise TranslatorError("c12fs: prodos tree does not start tree_node at depth 0")
+
+    # ---- FAT -----------------------------------------------------------------------------------------------
+    fm = rd("src/fs/fat/mod.rs")
+    consts.append(("fatMaxDirectoryDepth", const(fm, "MAX_DIRECTORY_DEPTH", "fat/mod.rs")))
+    ftn = fn_body(fm, r"fn tree_node\s*\(", "fat tree_node")
+    fgn = fn_body(fm, r"fn glob_node\s*\(", "fat glob_node")
+    flags.append(("fatTreeCapErr", cap_branch(ftn, r"depth\s*>\s*MAX_DIRECTORY_DEPTH", "fat tree_node"),
+                  "fat tree_node: reaching the nesting cap returns Err"))
+    flags.append(("fatGlobCapErr", cap_branch(fgn, r"self\.curr_path\.len\(\)\s*>\s*MAX_DIRECTORY_DEPTH", "fat glob_node"),
+                  "fat glob_node: reaching the nesting cap returns Err"))
+    lim = r"self\.boot_sector\.cluster_count_usable\(\)\s*\+\s*1"
+    f1, f2 = visit_budget(ftn, "fat tree_node", "tree_node", lim), visit_budget(fgn, "fat glob_node", "glob_node", lim)
+    flags.append(("fatVisitBudget", f1 and f2, "fat tree_node and glob_node stop beyond cluster_count_usable()+1 directories"))
+    if ws("self.tree_node(&subdir,include_meta,depth+1") not in ws(ftn):
+        raise TranslatorError("c12fs: fat tree_node does not recurse with depth+1")
+
+    # ---- CP/M ----------------------------------------------------------------------------------------------
+    cm = rd("src/fs/cpm/mod.rs")
+    nfb = ws(fn_body(cm, r"fn num_free_blocks\s*\(", "cpm num_free_blocks"))
+    if ws("(self.dpb.user_blocks() as u16).saturating_sub(used as u16)") in nfb:
+        flags.append(("cpmFreeSaturating", True, "cpm num_free_blocks cannot underflow"))
+    elif ws("self.dpb.user_blocks() as u16 - used as u16") in nfb:
+        flags.append(("cpmFreeSaturating", False, "cpm num_free_blocks cannot underflow"))
+    else:
+        raise TranslatorError("c12fs: cpm num_free_blocks matches neither the original nor the repaired form")
+    rf = fn_body(cm, r"fn read_file\s*\(", "cpm read_file")
+    m = re.search(r"if\s+lx_lower_bound\s*<\s*prev_lx_count\s*\{", rf)
+    if not m:
+        raise TranslatorError("c12fs: cpm read_file lost its extent ordering test")
+    blk = block_after(rf, m.end() - 1, "cpm read_file ordering test")
+    if "panic!" in blk and "return Err" not in ws(blk).replace("returnErr", "return Err"):
+        flags.append(("cpmOverlapErr", False, "cpm read_file: overlapping extent indices are an error, not a panic"))
+    elif re.search(r"return\s+Err\s*\(", blk) and "panic!" not in blk:
+        flags.append(("cpmOverlapErr", True, "cpm read_file: overlapping extent indices are an error, not a panic"))
+    else:
+        raise TranslatorError("c12fs: the extent ordering branch of cpm read_file is not in a modelled form")
 
     lines = ["/-! GENERATED by /verif/translator/gen_c12fs.py from %s -- do not edit; regenerated on every run -/" % ", ".join(FILES),
              "namespace A2Verif.Gen.C12FsFlags", ""]
